@@ -72,6 +72,26 @@ pub fn check_clock_convert(ts: i128, tod2: i128) -> Result<(), String> {
     out.map_err(|m| format!("with the current local instant {ts} us ({}): {m}", super::c05::show(Kind::Ts, ts)))
 }
 
+/// One year-month operation on the Oracle-style date at a whole-second instant against the same
+/// operation on the timestamp of that instant: same value or both errors.
+pub fn check_ym_vs_timestamp(x: i128, k: i32, sub: bool) -> Result<(), String> {
+    guarded(|| -> Result<(), String> {
+        let iv = ad::ym(k);
+        let (a, b) = if sub {
+            (ad::ts(x as i64).sub_interval_ym(iv).map(|v| v.usecs()), ad::ora(x as i64).sub_interval_ym(iv).map(|v| v.usecs()))
+        } else {
+            (ad::ts(x as i64).add_interval_ym(iv).map(|v| v.usecs()), ad::ora(x as i64).add_interval_ym(iv).map(|v| v.usecs()))
+        };
+        match (&a, &b) {
+            (Ok(p), Ok(q)) if p == q => Ok(()),
+            (Err(_), Err(_)) => Ok(()),
+            _ => Err(format!("OracleDate({x}) {} {k} months = {b:?}, the timestamp result floored to the second is {a:?}", if sub { "-" } else { "+" })),
+        }
+    })
+    .unwrap_or_else(|p| Err(p))
+    .map_err(|m| format!("{m} ({})", super::c05::show(Kind::Ora, x)))
+}
+
 /// Any operation of the table that returns an Oracle-style date: whole second, in range.
 pub fn check_op_invariant(op: &Op, args: &[Arg]) -> Result<(bool, &'static str), String> {
     let got = guarded(|| (op.call)(args)).map_err(|p| format!("{}({}): {p}", op.name, describe_args(args)))?;
@@ -180,6 +200,7 @@ pub fn eval(case: &Case) -> Verdict {
     let r: Result<(), String> = match case.kind.as_str() {
         "convert" => check_convert(i[0]),
         "clock_convert" => check_clock_convert(i[0], i[1]),
+        "ym_vs_ts" => check_ym_vs_timestamp(i[0], i[1] as i32, i[2] != 0),
         "add_dt" => check_add_dt(i[0], i[1], i[2] != 0),
         "add_days" => check_add_days(i[0] as u8, i[1], i2f(i[2])).map(|_| ()),
         "sub_date" => check_sub_date(i[0], i[1]),
@@ -318,6 +339,30 @@ pub fn run(ctx: &Ctx) -> (Stats, Report) {
         }
     });
     st.merge(s);
+    // C2: year-month arithmetic = the timestamp result, walking all dates with the operation and
+    // the offset held fixed (ascending and descending), so that consecutive calls share a month
+    {
+        let s = par_sweep(c.len() as u64, 1 << 12, |range, st| {
+            for pass in 0..2u64 {
+                for (oi, k) in [1i32, 11, 12, 25, 1200, 4799].into_iter().enumerate() {
+                    let sub = (oi as u64 + pass) % 2 == 1;
+                    for j in 0..(range.end - range.start) {
+                        let i = if pass == 0 { range.start + j } else { range.end - 1 - j };
+                        let n = c.rows[i as usize].n as i128;
+                        let x = n * US_PER_DAY + [0i128, 30_600, 43_200, 86_399][(i % 4) as usize] * US_PER_SEC;
+                        st.evaluations += 1;
+                        st.nontrivial_enum += 1;
+                        if let Err(m) = check_ym_vs_timestamp(x, k, sub) {
+                            st.fail(i, Case::new(P, "ym_vs_ts", vec![x, k as i128, sub as i128], vec![]), format!("{m} [in an {} walk with operation and offset held fixed: depends on earlier calls if the single call passes]", if pass == 0 { "ascending" } else { "descending" }));
+                            return;
+                        }
+                    }
+                }
+            }
+        });
+        st.merge(s);
+    }
+    st.exhaustive_sections.push("year-month arithmetic vs timestamp: all dates x 6 offsets, ascending and descending walks with operation and offset held fixed".into());
     st.section("interval_arithmetic_floored", &mut mark);
 
     // D: fractional days
@@ -400,7 +445,7 @@ pub fn run(ctx: &Ctx) -> (Stats, Report) {
     st.section("differences", &mut mark);
 
     let rep = Report {
-        rule: "Conversions: all dates x 4 seconds of the day x sub-second parts {0,1,499999,500000,999999} through From<Timestamp> and new (floor via i128 div_euclid, also before 1970); every such instant also injected as the current local instant (feature verif-hooks) for OracleDate::now() and OracleDate::try_from(Time) with that and a second, seeded sub-second time of day. Every operation of the operation table that takes or returns an Oracle-style date (constructors, conversions, interval / day arithmetic, last_day_of_month, 12 trunc + 12 round) on boundary+seeded pool cross products: each returned Oracle-style date must be a whole second inside 0001-01-01 00:00:00..9999-12-31 23:59:59. add/sub_interval_dt = the exact timestamp result floored to the second. add_days/sub_days/oracle_add_days/oracle_sub_days with classed doubles, k+1/2 second +-{0,1,10,100} us offsets, exactly representable near-tie offsets and proptest-generated pairs: the result must be a whole second within half a second of an admissible exact instant (ties either way). sub_date on pool pairs = seconds/86400 correctly rounded. Non-trivial = sub-second input, fractional-second offset, non-whole-second interval, non-whole-day difference, error outcome.".into(),
+        rule: "Conversions: all dates x 4 seconds of the day x sub-second parts {0,1,499999,500000,999999} through From<Timestamp> and new (floor via i128 div_euclid, also before 1970); every such instant also injected as the current local instant (feature verif-hooks) for OracleDate::now() and OracleDate::try_from(Time) with that and a second, seeded sub-second time of day. Every operation of the operation table that takes or returns an Oracle-style date (constructors, conversions, interval / day arithmetic, last_day_of_month, 12 trunc + 12 round) on boundary+seeded pool cross products: each returned Oracle-style date must be a whole second inside 0001-01-01 00:00:00..9999-12-31 23:59:59. add/sub_interval_dt = the exact timestamp result floored to the second; add/sub_interval_ym = the timestamp result (value or error) on walks over all dates with operation and offset held fixed. add_days/sub_days/oracle_add_days/oracle_sub_days with classed doubles, k+1/2 second +-{0,1,10,100} us offsets, exactly representable near-tie offsets and proptest-generated pairs: the result must be a whole second within half a second of an admissible exact instant (ties either way). sub_date on pool pairs = seconds/86400 correctly rounded. Non-trivial = sub-second input, fractional-second offset, non-whole-second interval, non-whole-day difference, error outcome.".into(),
         assumptions: vec![
             "add_days may fail when the exact (unrounded) instant lies outside the timestamp range even if its nearest second is the range minimum".into(),
             "month arithmetic of the Oracle-style date is decided in C09, truncation/rounding values in C10/C11/C17; here only the whole-second and range invariants of their results".into(),
